@@ -626,14 +626,34 @@ func TestC14ConcurrentFS(t *testing.T) {
 						}
 						delete(model, k)
 					}
-					if lr.IntN(10) == 0 {
+					if lr.IntN(6) == 0 {
 						if kl, ok := conn.(keyLister); ok {
 							ks, err := kl.Keys(fmt.Sprintf("g%02d", g))
-							if err == nil {
+							if err != nil {
+								// a listing may not fail because other keys are being written
+								mu.Lock()
+								errs = append(errs, fmt.Sprintf("Keys fails while other goroutines write their own keys: %.200s", err.Error()))
+								mu.Unlock()
+							} else {
 								_, live := model[fmt.Sprintf("g%02d", g)]
 								if live != (len(ks) == 1) {
 									mu.Lock()
 									errs = append(errs, fmt.Sprintf("Keys lists %v, own key live=%v", ks, live))
+									mu.Unlock()
+								}
+							}
+							// the long keys this goroutine owns, by their common prefix
+							pre := fmt.Sprintf("%s%02d", base, g)
+							if ks, err := kl.Keys(pre); err == nil {
+								want := 0
+								for k := range model {
+									if strings.HasPrefix(k, pre) {
+										want++
+									}
+								}
+								if len(ks) != want {
+									mu.Lock()
+									errs = append(errs, fmt.Sprintf("Keys(own long prefix) lists %d keys, %d are live", len(ks), want))
 									mu.Unlock()
 								}
 							}
